@@ -151,11 +151,21 @@ def run(chk):
                                                  'failing_inputs_found_by_the_exploration': [p[1] for p in concrete[:3]]},
                              what='C16:translation: ' + broken_tie[:300])
     seen = {}
+    # property-level first: the reader / writer products and the ValueError for other arguments are the property itself;
+    # which wrapper class a handle has and what its codec is called (decision / layer observations) are the model's
+    problems.sort(key=lambda p: p[0].startswith('C16:decision') or p[0].startswith('C16:layer'))
     for sig, detail in problems:
         if sig in seen:
             seen[sig] += 1
             continue
         seen[sig] = 1
+        if sig.startswith('C16:decision') or sig.startswith('C16:layer'):
+            if sig.startswith('C16:decision') and detail.get('arg', [''])[0] == 'other':
+                pass            # an unsupported argument that is not rejected with ValueError IS the property
+            else:
+                chk.correspondence_break(sig, {'case': detail, 'theorem': THEOREM, 'broken': ['Corr.C16.check_iocase: decision table / text layer of the helper vs Io.Model']},
+                                         what=f'{sig}: {json.dumps(detail)[:400]}')
+                continue
         chk.report_violation(sig, {'case': detail, 'theorem': THEOREM, 'all_problems': len(problems),
                                    'replay_note': 'the product is exhaustive and deterministic: re-running the check replays it'},
                              what=f'{sig}: {json.dumps(detail)[:400]}')
